@@ -3,6 +3,7 @@ package main
 import (
 	"os"
 	"strings"
+	"time"
 
 	"verifharness/internal/sconn"
 
@@ -12,6 +13,7 @@ import (
 func init() {
 	register("C06", scnCrcStrings, scnRtuFlips)
 	executors["rtuflip"] = execRtuFlip
+	executors["rtufliptail"] = execRtuFlipTail
 
 	executors["crc"] = func(in []string) string {
 		v, st := modbus.VerifCRC(unhex(in[0]))
@@ -200,4 +202,46 @@ func scnRtuFlips(o *Out, r *Rng, thorough bool) {
 		emit(unit, 1, 1, flipBit(v, 16+2), v2, op, "f8-bc")
 	}
 	o.RunMany("rtuflip", ins)
+	// byte count 0x04 -> 0x00 (a single bit): the frame looks 5 bytes long, its CRC fails,
+	// the remaining 4 bytes arrive 10 ms after the request (at 19200 bps the quiet period is 146 ms)
+	var tails []string
+	for _, unit := range []int{1, 9} {
+		v := rtuFrame(byte(unit), 3, []byte{4, 0xaa, 0xbb, 0xcc, 0xdd})
+		bad := flipBit(v, 16+2)
+		v2 := rtuFrame(byte(unit), 3, []byte{4, 0, 1, 0, 2})
+		tails = append(tails, strings.Join([]string{hxi(unit), "19200", hx(bad[:5]), hx(bad[5:]), hx(v2), "ReadRegisters", "0", "2", "0"}, " "))
+		o.Stat("flip:tail-during-quiet-period")
+	}
+	o.RunMany("rtufliptail", tails)
+}
+
+// rtufliptail: unit speed head tail valid2 op... : real deadlines. The first part of
+// a corrupted reply (enough for the client to reject it) arrives at once, its
+// tail 10 ms after the request - while the client keeps the line quiet before
+// flushing -, then a second exchange with a valid reply must succeed.
+func execRtuFlipTail(in []string) string {
+	c := sconn.New(false)
+	mc, err := modbus.VerifNewClientOnConn(&modbus.ClientConfiguration{URL: "rtuovertcp://x",
+		Timeout: 400 * time.Millisecond, Speed: uint(atoi(in[1])), Logger: quiet}, c)
+	if err != nil {
+		return "harness-error"
+	}
+	mc.SetUnitId(uint8(unhx(in[0])))
+	n := 0
+	c.OnWrite = func(c *sconn.Conn, b []byte) {
+		n++
+		if n == 1 {
+			c.Feed(unhex(in[2]))
+			go func() {
+				time.Sleep(10 * time.Millisecond)
+				c.Feed(unhex(in[3]))
+			}()
+		} else {
+			c.Feed(unhex(in[4]))
+		}
+	}
+	r1 := callOp(mc, in[5:])
+	left := c.Pending()
+	r2 := callOp(mc, in[5:])
+	return r1 + " left=" + itoa(left) + " " + r2
 }
